@@ -418,6 +418,17 @@ func (r *rig) c07Chain() string {
 				}
 			}
 			if !safe {
+				// Known finding: the predecessor was released (source deleted) by an incarnation that
+				// died before the cache was persisted; recover() then books it as done without
+				// keeping its place in the chain.
+				r.chainClass = ""
+				if _, err := os.Lstat(filepath.Join(r.outDir, x)); err != nil && w.Gen > 0 {
+					for _, v := range r.wire {
+						if v.Kind == "validate" && v.Gen < w.Gen && v.Answers[x] == 3 {
+							r.chainClass = "released-predecessor-dropped-from-chain"
+						}
+					}
+				}
 				return fmt.Sprintf("%s is announced with predecessor %q (request %s at %.3fs, incarnation %d) although %s, which immediately precedes it in its group, is not known to be delivered", p.Name, p.Prev, sig(w.Parts), w.At.Seconds(), w.Gen, x)
 			}
 		}
